@@ -620,6 +620,10 @@ func (b *BaseStore) Load(ctx context.Context, amount int) error {
 		return err
 	}
 
+	if amount == -1 && len(heads) > 0 {
+		b.loadMissingParents(ctx, progress)
+	}
+
 	// Update the index
 	if len(heads) > 0 {
 		span.AddEvent("store-index-updating")
@@ -635,6 +639,65 @@ func (b *BaseStore) Load(ctx context.Context, amount int) error {
 	}
 
 	return nil
+}
+
+// loadMissingParents loads what lies below the entries of the log whose
+// parents are not in it. A load or a replication that was cut short (a
+// cancelled request, a block that could not be read) leaves such gaps, and
+// nothing else ever fills them: the fetcher stops at the entries the log
+// already holds and Join only walks down from entries that are new to it.
+func (b *BaseStore) loadMissingParents(ctx context.Context, progress chan ifacelog.IPFSLogEntry) {
+	b.muJoining.Lock()
+	defer b.muJoining.Unlock()
+
+	oplog := b.OpLog()
+	amount := -1
+	tried := map[string]struct{}{}
+
+	for ctx.Err() == nil {
+		entries := oplog.GetEntries()
+
+		var missing []cid.Cid
+		for _, e := range entries.Slice() {
+			for _, parent := range e.GetNext() {
+				key := parent.String()
+				if _, ok := entries.Get(key); ok {
+					continue
+				}
+
+				if _, ok := tried[key]; ok {
+					continue
+				}
+
+				tried[key] = struct{}{}
+				missing = append(missing, parent)
+			}
+		}
+
+		if len(missing) == 0 {
+			return
+		}
+
+		for _, parent := range missing {
+			l, err := ipfslog.NewFromEntryHash(ctx, b.IPFS(), b.Identity(), parent, &ipfslog.LogOptions{
+				ID:               oplog.GetID(),
+				AccessController: b.AccessController(),
+				SortFn:           b.SortFn(),
+				IO:               b.options.IO,
+			}, &ipfslog.FetchOptions{
+				Length:       &amount,
+				Exclude:      oplog.GetEntries().Slice(),
+				ProgressChan: progress,
+			})
+			if err != nil || !logBelongsTo(l, oplog.GetID()) {
+				continue
+			}
+
+			if _, err := oplog.Join(l, -1); err != nil {
+				b.Logger().Debug("unable to join the log below a gap", zap.Error(err))
+			}
+		}
+	}
 }
 
 func (b *BaseStore) Sync(ctx context.Context, heads []ipfslog.Entry) error {
